@@ -7,6 +7,10 @@ import (
 	"sort"
 	"strings"
 
+	"github.com/spf13/cobra"
+	"github.com/spf13/pflag"
+
+	"github.com/fatedier/frp/pkg/config"
 	v1 "github.com/fatedier/frp/pkg/config/v1"
 )
 
@@ -90,5 +94,60 @@ func schemaCoverage() {
 	run.Set("settings_in_table_not_in_repo", surplus)
 	if len(missing) > 0 {
 		run.Inconclusive("settings table does not cover every setting of the tree under test")
+	}
+}
+
+// flagCoverage lists flags the tree under test registers that the independent flag table lacks.
+func flagCoverage() {
+	var missing []string
+	known := func(specs []flagSpec, extra ...string) map[string]bool {
+		m := map[string]bool{}
+		for _, fs := range specs {
+			m[strings.ReplaceAll(fs.Flag, "_", "-")] = true
+		}
+		for _, e := range extra {
+			m[e] = true
+		}
+		return m
+	}
+	{
+		var cfg v1.ServerConfig
+		cmd := &cobra.Command{Use: "frps"}
+		config.RegisterServerConfigFlags(cmd, &cfg)
+		k := known(serverFlags, "dashboard-tls-mode", "dashboard-tls-cert-file", "dashboard-tls-key-file")
+		cmd.PersistentFlags().VisitAll(func(f *pflag.Flag) {
+			if !k[strings.ReplaceAll(f.Name, "_", "-")] {
+				missing = append(missing, "frps:"+f.Name)
+			}
+		})
+	}
+	for _, t := range proxyTypes {
+		var common v1.ClientCommonConfig
+		cmd := &cobra.Command{Use: t}
+		config.RegisterClientCommonConfigFlags(cmd, &common)
+		config.RegisterProxyFlags(cmd, newProxyStruct(t))
+		k := known(concat2(concat2(clientCommonFlags, proxyBaseFlags), proxyTypeFlags[t]))
+		check := func(f *pflag.Flag) {
+			if !k[strings.ReplaceAll(f.Name, "_", "-")] {
+				missing = append(missing, "frpc "+t+":"+f.Name)
+			}
+		}
+		cmd.PersistentFlags().VisitAll(check)
+		cmd.Flags().VisitAll(check)
+	}
+	for _, t := range visitorTypes {
+		cmd := &cobra.Command{Use: "visitor"}
+		config.RegisterVisitorFlags(cmd, newVisitorStruct(t))
+		k := known(visitorFlags)
+		cmd.Flags().VisitAll(func(f *pflag.Flag) {
+			if !k[strings.ReplaceAll(f.Name, "_", "-")] {
+				missing = append(missing, "frpc "+t+" visitor:"+f.Name)
+			}
+		})
+	}
+	sort.Strings(missing)
+	run.Set("flags_in_repo_not_in_table", missing)
+	if len(missing) > 0 {
+		run.Inconclusive("flag table does not cover every flag of the tree under test")
 	}
 }
